@@ -125,7 +125,8 @@ CHECKS = {
              'per input and branch); upstream yields 1-2 stacks, reports exhaustion, is fed one more stack, reports exhaustion. ALT: for every input '
              'every branch yields all its results exactly once, a single input is answered left to right, and a stack fed after an earlier '
              'exhaustion is treated like any other (the pre-fix tree failed exactly this; fix 9db1e2e). ||: per input exactly the results of '
-             'the first branch that yields anything for that input, whatever earlier inputs chose. Every pull hands on exactly the stack a branch yielded.',
+             'the first branch that yields anything for that input, whatever earlier inputs chose. Every pull hands on exactly the stack a branch yielded. '
+             'Format strings (op_format::next): per input exactly the strings the directive chain produces, numbered 0,1,2,... afresh. Thorough adds ALT with 3 branches.',
         design_ref='DESIGN.md section 4 C01',
         note='bounded, never counted as proved. SLICE: concatenation, [ ], if-then-else, format strings, build.cc wiring not covered (op_subx under C04, '
              'closures under C10). Trusted: cxx2c lowering; the handle model of stacks, move-nulls-source for unique_ptr, std::vector/std::all_of/scon models; '
@@ -142,7 +143,8 @@ CHECKS = {
              'afterwards, none for builtins, under the invariant "ids in use are exactly 0..m_nextid-1"; the binder takes exactly the top value and '
              'keeps it per state location; a read pushes a copy of its OWN binder\'s value; bind-then-read restores the stack; an up-value read '
              'pushes the captured value with its id. BOUNDED: find over chains of <= 3 scopes (innermost wins, nullptr if none), the shadowing/no-leak '
-             'law over two scopes, refd_ids over the 4-name table, op_lex_closure with <= 4 up-values (up-value i = i-th value from the top).',
+             'law over two scopes, refd_ids over the 4-name table, the uprefs constructor of a nested block (knows exactly the visible names, none referenced, numbering from 0), '
+             'op_lex_closure with <= 4 up-values (up-value i = i-th value from the top). build_pred (build.cc): the sub-expression of ?( )/!( ) gets a scope of its own nested in the current one.',
         design_ref='DESIGN.md section 4 C03',
         note='SLICE: which scope object each sub-expression gets (build.cc), the order of reads emitted for a block, the uprefs constructor, '
              'op_apply::substate and the grammar are NOT covered. Trusted: cxx2c lowering; identifiers as atoms and std::map as a total table over '
